@@ -26,7 +26,7 @@ func init() {
 		Assumptions: []string{"AEAD implementations are inverse pairs (Decrypt(Encrypt(p,k),k)=p)", "Metastore.Load returns what Store stored (C13)"},
 		Tech:        "static analysis: value provenance over SSA (writer/reader agreement), closure-binding call-graph reachability, no-write-through may-flow on caller buffers",
 		NeedU1:      true,
-		Rules:       []func(*Ctx){ruleC01ProvenanceEncrypt, ruleC01ProvenanceDecrypt, ruleC01NoValidityGateOnRead, ruleC01NoExtraGateOnRead, ruleC01OldKeysAddressable, ruleC01CallerBuffersImmutable, ruleC08RefcountProtocol, ruleC08EveryHandoutCounted, ruleC16TeardownWaits, ruleC16GetAtomic, lostUpdateRule("C16", "github.com/godaddy/asherah/go/appencryption"), ruleC17EntryPerSuccess, ruleC17WorkerContextLives, ruleC18GCMLayout, ruleC07LengthGuard, ruleC02FreshKeyOnlyIfStored, ruleC02SuccessIsStoreBool, ruleC13InsertOnly, ruleC13StoreResult, ruleC13KeyFidelity, ruleC10WipedBuffersAreOwned, ruleC01DependenciesNotClosed, ruleC01LatestLookupUsesMarker, ruleC10WipeNotEarly, ruleC13FieldFidelity, ruleC01LatestFetchedUnderOwnID, ruleC08SharedCacheCreatedOnlyWhenFlagged, ruleC18RegionSuffixResolvedOnEveryPath},
+		Rules:       []func(*Ctx){ruleC01ProvenanceEncrypt, ruleC01ProvenanceDecrypt, ruleC01NoValidityGateOnRead, ruleC01NoExtraGateOnRead, ruleC01OldKeysAddressable, ruleC01CallerBuffersImmutable, ruleC08RefcountProtocol, ruleC08EveryHandoutCounted, ruleC16TeardownWaits, ruleC16GetAtomic, lostUpdateRule("C16", "github.com/godaddy/asherah/go/appencryption"), ruleC17EntryPerSuccess, ruleC17WorkerContextLives, ruleC18GCMLayout, ruleC07LengthGuard, ruleC02FreshKeyOnlyIfStored, ruleC02SuccessIsStoreBool, ruleC13InsertOnly, ruleC13StoreResult, ruleC13KeyFidelity, ruleC10WipedBuffersAreOwned, ruleC01DependenciesNotClosed, ruleC01LatestLookupUsesMarker, ruleC10WipeNotEarly, ruleC13FieldFidelity, ruleC01LatestFetchedUnderOwnID, ruleC08SharedCacheCreatedOnlyWhenFlagged, ruleC18RegionSuffixResolvedOnEveryPath, ruleC13KMSInputNotModified, ruleC08SessionCloseOnlyClosesEncryption, ruleC18KeyIDOperands},
 	})
 }
 
@@ -667,6 +667,10 @@ func ruleC01CallerBuffersImmutable(c *Ctx) {
 		f := u.Method(pkgAead, "cryptoFunc", m.fn)
 		if f == nil {
 			continue
+		}
+		if host, _, _ := aeadStepHost(f, m.meth); host != nil {
+			f = host // the cipher step sits in a helper of the package
+			c.FuncsAnalysed[shortName(f)] = true
 		}
 		n := 0
 		allInstrs(f, func(i ssa.Instruction) {
